@@ -190,7 +190,9 @@ class DataIterator(types.Recoverable, Iterator[_T]):
 
   @property
   def state(self) -> ShardConfig:
-    return dc.replace(self.config.state, start_index=self._index)
+    # A restored iterator only fast-forwards to its start index on next().
+    start_index = max(self._index, self.config.state.start_index)
+    return dc.replace(self.config.state, start_index=start_index)
 
   def __next__(self) -> _T:
     """Iterates the data source given a shard index."""
